@@ -1108,3 +1108,239 @@ Proof.
   - destruct PM as [-> _]. apply (REL s2 _ E4 T2 Ans2 En2 Xs2 Ec2 Xm2 X2 Q2). apply HBK. exact Hn2.
   - destruct PM as [-> Nt]. apply (REL s2 _ E4 T2 Ans2 En2 Xs2 Ec2 Xm2 X2 Q2). apply HBK. exact Hn2.
 Qed.
+
+(* ---------------------------------------------------------------- application actions *)
+Lemma HB_new : forall q s s1 id, new_question q s = Ok (s1, id) -> live s -> q_boot q = None -> HB s -> HB s1.
+Proof.
+  intros q s s1 id H L Qb Hb. destruct (new_question_q _ _ _ _ H L) as (Hn & TG & Hh & _).
+  intros qid q0 h Hq Hf Hbq. rewrite TG in Hq. rewrite Hh. destruct (qid =? id); [inversion Hq; subst; congruence|eapply Hb; eauto].
+Qed.
+
+Lemma HB_replace : forall s id q q', tget id (s_qs s) = Some q ->
+  (q_fin q' = false -> forall h, q_boot q' = Some h -> q_boot q = Some h /\ q_fin q = false) -> HB s ->
+  HB (set_qs (replace_nth (Z.to_nat id) (Some q') (s_qs s)) s).
+Proof.
+  intros s id q q' Hg Hc Hb qid q0 h Hq Hf Hbq. cbn [s_qs s_handles set_qs] in *.
+  rewrite (tget_replace_same _ _ _ _ _ _ Hg) in Hq. destruct (qid =? id) eqn:E; [|eapply Hb; eauto].
+  inversion Hq; subst q0. assert (qid = id) by lia. subst qid. destruct (Hc Hf h Hbq) as [C1 C2]. eapply Hb; eauto.
+Qed.
+
+Lemma acap_noemb : forall s s2 caps, forallb (acap_ok s) caps = true -> s_handles s2 = s_handles s -> noemb (map (acap_cap s2) caps).
+Proof.
+  intros s s2 caps H Hh. unfold noemb. apply Forall_forall. intros x Hx. apply in_map_iff in Hx. destruct Hx as (a & <- & Ha).
+  rewrite forallb_forall in H. specialize (H a Ha). destruct a; simpl; try exact I.
+  unfold acap_ok in H. unfold hget in *. rewrite Hh. destruct (znth h (s_handles s)) as [[q|c|]|]; try exact I. destruct c; try exact I. discriminate.
+Qed.
+
+(* RI over states that differ in fields RI does not read, with the question table and handles given *)
+Lemma RI_frame : forall s s1, RI s -> s_boot s1 = s_boot s -> s_exp s1 = s_exp s -> s_egen s1 = s_egen s -> s_ans s1 = s_ans s ->
+  s_emb s1 = s_emb s -> s_mgen s1 = s_mgen s -> s_lrefs s1 = s_lrefs s -> s_handles s1 = s_handles s -> HB s1 -> RI s1.
+Proof.
+  intros s s1 (Hx & Ti & (K & P & He & Hxs) & Ec & Xm & Hb) B E G A M MG L Hh Hb1.
+  split; [intros j; rewrite (X_eq j s s1) by assumption; apply Hx|split; [intros e; rewrite M, Hh; apply Ti|split; [|split; [rewrite M; exact Ec|split; [unfold XM; rewrite M, MG; exact Xm|exact Hb1]]]]].
+  split; [rewrite A; exact K|split; [rewrite A; exact P|split; [rewrite E; exact He|unfold XS; rewrite E, G; exact Hxs]]].
+Qed.
+
+Lemma ri_send_call : forall s s1 n caps (mk : Z -> list desc -> output) s0 o0 ab, live s1 -> RI s1 -> s_handles s1 = s_handles s ->
+  forallb (acap_ok s) caps = true ->
+  (do '(s2, id) <- new_question (mkQ None n false [] [] None) s1;
+   do '(s3, ds, refs) <- fill_caps cfg_fixed (map (acap_cap s2) caps) s2;
+   let s4 := if fx19 cfg_fixed then set_qs (replace_nth (Z.to_nat id) (Some (mkQ None n false [] refs None)) (s_qs s3)) s3 else s3 in
+   Ok (s4, [mk id ds], false)) = Ok (s0, o0, ab) -> RI s0.
+Proof.
+  intros s s1 n caps mk s0 o0 ab L1 R Hh Hc H.
+  destruct (new_question _ s1) as [[s2 id]| |] eqn:E; cbn [bind] in H; try discriminate.
+  pose proof (HB_new _ _ _ _ E L1 eq_refl (proj2 (proj2 (proj2 (proj2 (proj2 R)))))) as Hb2.
+  destruct (new_question_q _ _ _ _ E L1) as (Hn & TG & Hh1 & _).
+  assert (R2 : RI s2).
+  { unfold new_question in E. destruct (gen_next (s_qgen s1)) as [[i g]| |]; cbn [bind] in E; try discriminate.
+    destruct (tput i _ (s_qs s1)) as [t| |]; cbn [bind] in E; try discriminate. inversion E; subst.
+    eapply RI_frame; [exact R|reflexivity..|exact Hb2]. }
+  destruct (fill_caps cfg_fixed _ s2) as [[[s3 ds] refs]| |] eqn:E3; cbn [bind] in H; try discriminate.
+  pose proof (aux_fill_caps _ _ _ _ _ _ E3) as AQ. cbn [fx19 cfg_fixed] in H. inversion H; subst.
+  pose proof R2 as (Hx2 & Ti2 & (K2 & P2 & He2 & Hxs2) & Ec2 & Xm2 & _).
+  destruct (rf_fill_caps _ _ _ _ _ E3 (acap_noemb s s2 caps Hc ltac:(congruence)) He2 Hxs2) as (A3 & B3 & C3 & D3 & X3).
+  assert (Q3 : s_qs s3 = s_qs s2) by (change (x_qs (aux_of s3) = x_qs (aux_of s2)); rewrite AQ; reflexivity).
+  assert (R3 : RI s3).
+  { eapply RI_keep; [exact R2|exact B3|exact Q3| |exact X3]. unfold FA in A3. split; [rewrite A3; exact K2|split; [rewrite A3; exact P2|split; [exact C3|exact D3]]]. }
+  assert (T3 : tget id (s_qs s3) = Some (mkQ None n false [] [] None)) by (rewrite Q3, TG, Z.eqb_refl; reflexivity).
+  eapply RI_frame; [exact R3|reflexivity..|]. eapply HB_replace; [exact T3| |apply (proj2 (proj2 (proj2 (proj2 (proj2 R3)))))].
+  intros _ h0 Hh0. discriminate.
+Qed.
+
+Lemma RI_ncall : forall s v, RI s -> RI (set_ncall v s).
+Proof. intros s v R. exact R. Qed.
+
+Lemma ri_app_pipe : forall q0 x caps s s0 o0 ab, app_pipe cfg_fixed q0 x caps s = Ok (s0, o0, ab) ->
+  (s_shut s = false -> live s) -> forallb (acap_ok s) caps = true -> RI s -> RI s0.
+Proof.
+  intros q0 x caps s s0 o0 ab H Lv Hc R. unfold app_pipe, next_call in H.
+  set (sa := set_ncall (s_ncall s + 1) s) in *.
+  assert (SIMPLE : forall c, Ok (sa, [LAppRes (s_ncall s) c], false) = Ok (s0, o0, ab) -> RI s0).
+  { intros c E. inversion E; subst. exact R. }
+  destruct (s_shut sa) eqn:Es; [apply (SIMPLE _ H)|]. pose proof (Lv Es) as L.
+  destruct (tget q0 (s_qs sa)) as [q|] eqn:Eq; [|apply (SIMPLE _ H)].
+  destruct (q_fin q) eqn:Ef; [apply (SIMPLE _ H)|].
+  pose proof (tget_some _ _ _ _ Eq) as [Hr Hn].
+  set (s1 := set_qs (replace_nth (Z.to_nat q0) (Some (mark_called x q)) (s_qs sa)) sa) in *.
+  assert (La : live sa) by (eapply live_core; [exact L|reflexivity]).
+  assert (L1 : live s1) by (apply live_set_qs; [exact La|apply replace_nth_length|eapply slots_free_replace; [apply qs_slots; exact La|exact Hn]]).
+  destruct (mark_called_same x q) as (S1 & S2 & S3 & S4).
+  assert (R1 : RI s1).
+  { eapply RI_frame; [exact R|reflexivity..|]. apply (HB_replace sa q0 q (mark_called x q) Eq); [intros _ h0 Hh0; split; [congruence|exact Ef]|apply R]. }
+  eapply (ri_send_call s s1); [exact L1|exact R1|reflexivity|exact Hc|exact H].
+Qed.
+
+Lemma ri_app_call : forall h caps tag s s0 o0 ab, app_call cfg_fixed h caps tag s = Ok (s0, o0, ab) ->
+  (s_shut s = false -> live s) -> forallb (acap_ok s) caps = true -> RI s -> RI s0.
+Proof.
+  intros h caps tag s s0 o0 ab H Lv Hc R. unfold app_call in H.
+  destruct (hget h s) as [q0|x|]; [eapply ri_app_pipe; eauto| |unfold next_call in H; inversion H; subst; exact R].
+  unfold next_call in H. set (sa := set_ncall (s_ncall s + 1) s) in *.
+  destruct x; try (inversion H; subst; exact R; fail).
+  destruct (s_shut sa) eqn:Es; [inversion H; subst; exact R|]. pose proof (Lv Es) as L.
+  destruct (negb (imp_current i g sa)); [inversion H; subst; exact R|].
+  assert (La : live sa) by (eapply live_core; [exact L|reflexivity]).
+  eapply (ri_send_call s sa); [exact La|exact R|reflexivity|exact Hc|exact H].
+Qed.
+
+Lemma ri_app_hold : forall h s s0 o0 ab, app_hold cfg_fixed h s = Ok (s0, o0, ab) -> (s_shut s = false -> live s) -> RI s -> RI s0.
+Proof.
+  intros h s s0 o0 ab H Lv R. unfold app_hold, next_call in H.
+  set (sa := set_ncall (s_ncall s + 1) s) in *.
+  destruct (hget h sa) as [q0|x|]; try (inversion H; subst; exact R; fail).
+  destruct x; try (inversion H; subst; exact R; fail).
+  destruct (s_shut sa) eqn:Es; [inversion H; subst; exact R|]. cbn [orb] in H. pose proof (Lv Es) as L.
+  destruct (negb (imp_current i g sa)); [inversion H; subst; exact R|].
+  assert (La : live sa) by (eapply live_core; [exact L|reflexivity]).
+  destruct (new_question _ sa) as [[s2 id]| |] eqn:E; cbn [bind] in H; try discriminate. inversion H; subst.
+  pose proof (HB_new _ _ _ _ E La eq_refl (proj2 (proj2 (proj2 (proj2 (proj2 R)))))) as Hb2.
+  unfold new_question in E. destruct (gen_next (s_qgen sa)) as [[i0 g0]| |]; cbn [bind] in E; try discriminate.
+  destruct (tput i0 _ (s_qs sa)) as [t| |]; cbn [bind] in E; try discriminate. inversion E; subst.
+  eapply RI_frame; [exact R|reflexivity..|exact Hb2].
+Qed.
+
+Lemma ri_app_unhold : forall n s s0 o0 ab, app_unhold cfg_fixed n s = Ok (s0, o0, ab) -> RI s -> RI s0.
+Proof.
+  intros n s s0 o0 ab H R. unfold app_unhold in H.
+  destruct (find_held n (s_qs s) 0) as [[qid q]|] eqn:Ef; [|inversion H; subst; exact R].
+  destruct (find_held_tget _ _ _ _ Ef) as [Eq Hheld].
+  destruct (q_held q) as [[[i g] cs]|] eqn:Eh; [|inversion H; subst; exact R].
+  destruct (s_shut s); [inversion H; subst; exact R|].
+  set (q' := mkQ None (q_call q) (q_fin q) [] [] None) in *.
+  set (s1 := set_qs (replace_nth (Z.to_nat qid) (Some q') (s_qs s)) s) in *.
+  assert (R1 : RI s1).
+  { eapply RI_frame; [exact R|reflexivity..|]. apply (HB_replace s qid q q' Eq); [|apply R].
+    intros _ h0 Hh0. discriminate. }
+  match type of H with context [if ?c then _ else _] => destruct c end.
+  - match type of H with context [imp_shutdown cfg_fixed i g ?sx] => destruct (imp_shutdown cfg_fixed i g sx) as [[s3 o3]| |] eqn:E3; cbn [bind] in H; try discriminate end.
+    inversion H; subst. destruct (rf_imp_shutdown _ _ _ _ _ E3) as (A & B & C & D). pose proof (aux_imp_shutdown _ _ _ _ _ _ E3) as AQ.
+    eapply RI_frame; [exact R1|apply (proj1 (proj2 (proj2 C)))|apply (proj1 B)|apply (proj2 B)|exact A|apply (proj1 (proj2 C))|apply (proj2 (proj2 (proj2 C)))|exact D|apply (proj1 C)|].
+    eapply HB_same; [|apply (proj1 C)|apply R1]. change (x_qs (aux_of s0) = x_qs (aux_of (set_dead (dead_del i g (s_dead (set_busy (busy_add i g (-1) (s_busy s1)) s1))) (set_busy (busy_add i g (-1) (s_busy s1)) s1)))). rewrite AQ. reflexivity.
+  - inversion H; subst. eapply RI_frame; [exact R1|reflexivity..|apply R1].
+Qed.
+
+Lemma ri_app_cancel : forall qid s s0 o0 ab, app_cancel cfg_fixed qid s = Ok (s0, o0, ab) -> RI s -> RI s0.
+Proof.
+  intros qid s s0 o0 ab H R. unfold app_cancel in H.
+  destruct (s_shut s); [inversion H; subst; exact R|].
+  destruct (tget qid (s_qs s)) as [q|] eqn:Eq; [|inversion H; subst; exact R].
+  destruct (q_fin q || (q_call q <? 0) || _); [inversion H; subst; exact R|].
+  unfold cancel_question in H. cbn [bind] in H. inversion H; subst.
+  eapply RI_frame; [exact R|reflexivity..|]. eapply HB_replace; [exact Eq| |apply R]. cbn [q_fin]. discriminate.
+Qed.
+
+Lemma ri_app_bootstrap : forall s s0 o0 ab, app_bootstrap cfg_fixed s = Ok (s0, o0, ab) -> (s_shut s = false -> live s) -> RI s -> RI s0.
+Proof.
+  intros s s0 o0 ab H Lv R. pose proof R as (Hx & Ti & Ai & Ec & Xm & Hb). unfold app_bootstrap in H.
+  assert (APP : forall sx v, s_boot sx = s_boot s -> s_exp sx = s_exp s -> s_egen sx = s_egen s -> s_ans sx = s_ans s -> s_emb sx = s_emb s ->
+            s_mgen sx = s_mgen s -> s_lrefs sx = s_lrefs s -> s_handles sx = s_handles s -> hw 0 v = 0 -> (forall j, hw j v = 0) -> (forall e, he e v = 0) ->
+            HB (set_handles (s_handles sx ++ [v]) sx) -> RI (set_handles (s_handles sx ++ [v]) sx)).
+  { intros sx v B E G A M MG L Hh _ Hw Hv Hb1. destruct Ai as (K & P & He & Hxs).
+    split; [|split; [|split; [|split; [|split]]]].
+    - intros j. unfold X, RC. cbn [s_boot s_exp s_ans s_handles s_emb s_lrefs set_handles]. rewrite B, E, A, M, L, Hh, HND_app, Hw.
+      specialize (Hx j). unfold X, RC in Hx. lia.
+    - intros e. cbn [s_emb s_handles set_handles]. rewrite M, Hh, HE_app, Hv. specialize (Ti e). destruct (tget e (s_emb s)); [lia|destruct Ti; split; lia].
+    - split; [cbn [s_ans set_handles]; rewrite A; exact K|split; [cbn [s_ans set_handles]; rewrite A; exact P|
+        split; [cbn [s_exp set_handles]; rewrite E; exact He|unfold XS; cbn [s_exp s_egen set_handles]; rewrite E, G; exact Hxs]]].
+    - cbn [s_emb set_handles]. rewrite M. exact Ec.
+    - unfold XM. cbn [s_emb s_mgen set_handles]. rewrite M, MG. exact Xm.
+    - exact Hb1. }
+  destruct (s_shut s) eqn:Es.
+  - inversion H; subst. apply (APP s (HCap CErr)); try reflexivity.
+    intros qid q h Hq Hf Hbq. cbn [s_qs s_handles set_handles] in *. apply znth_app_old. eapply Hb; eauto.
+  - pose proof (Lv eq_refl) as L.
+    destruct (new_question _ s) as [[s1 id]| |] eqn:E; cbn [bind] in H; try discriminate. inversion H; subst.
+    destruct (new_question_q _ _ _ _ E L) as (Hn & TG & Hh1 & _).
+    assert (F : s_boot s1 = s_boot s /\ s_exp s1 = s_exp s /\ s_egen s1 = s_egen s /\ s_ans s1 = s_ans s /\ s_emb s1 = s_emb s /\ s_mgen s1 = s_mgen s /\ s_lrefs s1 = s_lrefs s).
+    { unfold new_question in E. destruct (gen_next (s_qgen s)) as [[i g]| |]; cbn [bind] in E; try discriminate.
+      destruct (tput i _ (s_qs s)) as [t| |]; cbn [bind] in E; try discriminate. inversion E; subst. repeat split. }
+    destruct F as (F1 & F2 & F3 & F4 & F5 & F6 & F7).
+    apply (APP s1 (HBoot id)); auto.
+    intros qid q h Hq Hf Hbq. cbn [s_qs s_handles set_handles] in *. rewrite TG in Hq. rewrite Hh1. destruct (qid =? id) eqn:Ei.
+    + inversion Hq; subst q. cbn [q_boot] in Hbq. inversion Hbq; subst h. assert (qid = id) by lia. subst qid.
+      unfold znth. rewrite app_length. simpl. replace ((Z.of_nat (length (s_handles s)) <? 0) || (Z.of_nat (length (s_handles s) + 1) <=? Z.of_nat (length (s_handles s)))) with false by lia.
+      rewrite Nat2Z.id, nth_error_app2 by lia. rewrite Nat.sub_diag. reflexivity.
+    + apply znth_app_old. eapply Hb; eauto.
+Qed.
+
+Lemma ri_app_release : forall h s s0 o0 ab, app_release cfg_fixed h s = Ok (s0, o0, ab) ->
+  (s_shut s = true -> s_qs s = []) -> RI s -> RI s0.
+Proof.
+  intros h s s0 o0 ab H Sq R. pose proof R as (Hx & Ti & Ai & Ec & Xm & Hb). unfold app_release in H.
+  destruct (hget h s) as [qid|x|] eqn:Eh; [| |inversion H; subst; exact R].
+  - pose proof (hget_znth _ _ _ Eh ltac:(discriminate)) as Hz. pose proof (znth_some _ _ _ _ Hz) as [Hr Hn].
+    set (sa := set_handle h HGone s) in *.
+    (* the handle of an unresolved bootstrap weighs nothing *)
+    assert (Ra : forall t, HB (set_qs t sa) -> RI (set_qs t sa)).
+    { intros t Hb1. destruct Ai as (K & P & He & Hxs). split; [|split; [|split; [|split; [|split]]]].
+      - intros j. unfold X, RC. cbn [sa s_boot s_exp s_ans s_handles s_emb s_lrefs set_qs set_handle set_handles].
+        rewrite (HND_replace j _ _ HGone _ Hn). simpl hw. specialize (Hx j). unfold X, RC in Hx. lia.
+      - intros e. cbn [sa s_emb s_handles set_qs set_handle set_handles]. rewrite (HE_replace e _ _ HGone _ Hn). simpl he.
+        specialize (Ti e). destruct (tget e (s_emb s)); [lia|destruct Ti; split; lia].
+      - split; [exact K|split; [exact P|split; [exact He|exact Hxs]]].
+      - exact Ec.
+      - exact Xm.
+      - exact Hb1. }
+    assert (HBa : forall qid' q' h', qid' <> qid \/ q_fin q' = true -> tget qid' (s_qs s) = Some q' -> q_fin q' = false -> q_boot q' = Some h' ->
+              znth h' (s_handles sa) = Some (HBoot qid')).
+    { intros qid' q' h' Hne Hq Hf Hbq. pose proof (Hb _ _ _ Hq Hf Hbq) as Hz'.
+      assert (h' <> h) by (intros ->; rewrite Hz in Hz'; inversion Hz'; destruct Hne; congruence).
+      unfold sa, set_handle. cbn [s_handles set_handles]. rewrite znth_replace by lia. replace (h' =? h) with false by lia. exact Hz'. }
+    destruct (s_shut sa) eqn:Es.
+    + inversion H; subst. apply (Ra (s_qs s)). intros qid' q' h' Hq. cbn [s_qs set_qs] in Hq. rewrite (Sq Es) in Hq.
+      unfold tget, znth in Hq. simpl in Hq. destruct ((qid' <? 0) || (0 <=? qid')); [discriminate|destruct (Z.to_nat qid'); discriminate].
+    + destruct (tget qid (s_qs sa)) as [q|] eqn:Eq.
+      * destruct (q_fin q) eqn:Ef.
+        -- inversion H; subst. apply (Ra (s_qs s)). intros qid' q' h' Hq Hf Hbq. cbn [s_qs set_qs] in Hq.
+           apply (HBa qid' q' h'); auto. destruct (Z.eq_dec qid' qid); [subst; change (s_qs sa) with (s_qs s) in Eq; rewrite Eq in Hq; inversion Hq; subst; right; exact Ef|left; exact n].
+        -- unfold cancel_question in H. cbn [bind] in H. inversion H; subst.
+           match goal with |- RI (set_qs ?t sa) => apply (Ra t) end.
+           intros qid' q' h' Hq Hf Hbq. cbn [s_qs s_handles set_qs] in Hq |- *. change (s_qs sa) with (s_qs s) in Hq, Eq.
+           rewrite (tget_replace_same _ _ _ _ _ _ Eq) in Hq. destruct (qid' =? qid) eqn:E; [inversion Hq; subst q'; cbn [q_fin] in Hf; discriminate|].
+           apply (HBa qid' q' h'); auto. left. lia.
+      * inversion H; subst. apply (Ra (s_qs s)). intros qid' q' h' Hq Hf Hbq. cbn [s_qs set_qs] in Hq.
+        apply (HBa qid' q' h'); auto. left. intros ->. change (s_qs sa) with (s_qs s) in Eq. congruence.
+  - destruct (release_cap cfg_fixed x _) as [[s1 o]| |] eqn:E; cbn [bind] in H; try discriminate. inversion H; subst.
+    pose proof (hget_znth _ _ _ Eh ltac:(discriminate)) as Hz. pose proof (znth_some _ _ _ _ Hz) as [Hr Hn].
+    set (sa := set_handle h HGone s) in *.
+    assert (Ta : TI sa [x]).
+    { intros e. cbn [sa s_emb s_handles set_handle set_handles]. rewrite (HE_replace e _ _ HGone _ Hn). simpl. specialize (Ti e). simpl in Ti.
+      destruct (tget e (s_emb s)); [lia|]. destruct Ti as [T1 T2]. pose proof (ce_nonneg e x). pose proof (HE_nonneg e (s_handles s)).
+      assert (HE e (s_handles s) >= ce e x).
+      { clear - Hn. revert Hn. generalize (Z.to_nat h) as n. induction (s_handles s) as [|a l IH]; intros n Hn; destruct n; simpl in Hn; try discriminate.
+        - inversion Hn; subst. simpl. pose proof (HE_nonneg e l). lia.
+        - specialize (IH _ Hn). simpl. assert (0 <= he e a) by (destruct a; simpl; try lia; apply ce_nonneg). lia. }
+      split; lia. }
+    assert (Xa : forall j, X j sa = cl j x).
+    { intros j. unfold X, RC. cbn [sa s_boot s_exp s_ans s_handles s_emb s_lrefs set_handle set_handles].
+      rewrite (HND_replace j _ _ HGone _ Hn). simpl hw. specialize (Hx j). unfold X, RC in Hx. lia. }
+    destruct (rf_release_cap _ _ _ _ [] E Ta) as (T1 & A1 & B1 & C1 & D1 & M1 & N1 & X1 & P1 & G1). pose proof (aux_release_cap _ _ _ _ _ E) as AQ.
+    destruct Ai as (K & P & He & Hxs). unfold FA in A1.
+    split; [intros j; rewrite X1, Xa; lia|split; [exact T1|split; [|split; [apply N1; exact Ec|split; [apply P1; exact Xm|]]]]].
+    + split; [rewrite A1; exact K|split; [rewrite A1; exact P|split; [eapply EN_FE; [exact B1|exact He]|eapply XS_FE; [exact B1|exact Hxs]]]].
+    + intros qid' q' h' Hq Hf Hbq. assert (Q : s_qs s0 = s_qs s) by (change (x_qs (aux_of s0) = s_qs s); rewrite AQ; reflexivity).
+      rewrite Q in Hq. rewrite C1. pose proof (Hb _ _ _ Hq Hf Hbq) as Hz'.
+      assert (h' <> h) by (intros ->; rewrite Hz in Hz'; discriminate).
+      unfold sa, set_handle. cbn [s_handles set_handles]. rewrite znth_replace by lia. replace (h' =? h) with false by lia. exact Hz'.
+Qed.
